@@ -33,7 +33,7 @@ ASSUMPTIONS = [
     "termination bound 20 s per call (>= 500x the typical cost)",
 ]
 PROFILE = {
-    "quick": dict(examples=1500, shards=16, budget_s=80),
+    "quick": dict(examples=3500, shards=16, budget_s=80),
     "thorough": dict(examples=8000, shards=16, budget_s=1100),
 }
 
